@@ -248,8 +248,9 @@ func register(name string, v any) {
 	registry = append(registry, sharedEntry{name: name, v: v, snap: emit.Dump(reflect.ValueOf(v))})
 }
 
-// every shared value of the four populations
+// every shared value of the five populations
 func registerShared() {
+	registerFlowShared()
 	register("shared", shared)
 	register("shared2", shared2)
 	register("strs", strs)
